@@ -43,6 +43,12 @@ TEMPLATES = [
     fn("verschachtelt", [("x", GT, False)], TL(GT), [RET(call("als_paar", [("a", call("identitaet", [("x", ident("x"))])), ("b", ident("x"))]))]),   # generic calling generics
     fn("vorgabe", [("x", GT, False)], GT, [var("d", GT, {"k": "std", "t": GT}, False), RET(ident("d"))]),
 ]
+# a generic body that names a type of its own module: the alias Wert (= Kommazahl) is private to the declaring module,
+# the importing module declares another type under the same name
+TWERT = {"b": "K", "alias": "Wert"}
+TEMPLATES.append(fn("halbiere", [("x", GT, False)], TK, [var("h", TWERT, cast(TWERT, bin_("durch", ident("x"), zl(2))), False), RET(bin_("plus", ident("h"), ident("h")))]))
+TYPEDECLS = ["Wir nennen eine Kommazahl auch eine Wert.", ""]
+MAIN_DECOYS = ["Wir nennen eine Zahl auch eine Wert.", ""]
 for t in TEMPLATES:
     t["generic"] = True
 TBYNAME = {t["n"]: t for t in TEMPLATES}
@@ -73,6 +79,8 @@ def cases(tier, rng):
         cs.append(Case("gen:kopiere_n:%s" % enc, gcall("kopiere_n", b, [("x", a), ("n", zl(3))]), TL(t)) if "l" not in t else None)
         su = [var("ga", t, a, False), var("gb", t, v2, False), {"k": "expr", "e": gcall("tausche", b, [("a", lvid("ga")), ("b", lvid("gb"))])}]
         cs.append(Case("gen:tausche:%s" % enc, semgen.pair2(ident("ga"), t, ident("gb"), t)[0], semgen.pair2(ident("ga"), t, ident("gb"), t)[1], su))
+        if enc in ("Z", "K"):
+            cs.append(Case("gen:halbiere:%s" % enc, gcall("halbiere", b, [("x", zl(7) if enc == "Z" else lit(K(7, 1)))]), TK))
         if lst:
             sl = [var("gl", TL(t), lst, False)]
             cs.append(Case("gen:erstes:%s" % enc, gcall("erstes", b, [("l", ident("gl"))]), t, sl))
